@@ -61,6 +61,14 @@ def jFloat (f : Float) : Json :=
     | .inr n => Json.num n
     | .inl s => Json.str s
 
+/-- exact float payload: `[m, e]` with value `m · 2^e` (the decimal printer above keeps ~6 digits only) -/
+def jFloatExact (f : Float) : Json :=
+  if f.isNaN then Json.str "nan" else if f.isInf then Json.str (if f > 0 then "inf" else "-inf") else
+  let (m, e) := f.frExp
+  let s := Float.scaleB m 53
+  let n : Int := (Float.abs s).toUInt64.toNat
+  Json.arr #[jInt (if s < 0 then -n else n), jInt (e - 53)]
+
 def getFloat (j : Json) (k : String) : Except String Float := do
   let v ← j.getObjVal? k
   match v with
